@@ -368,8 +368,8 @@ func (f *Frame) specEnv(cur *State, at *ssa.BasicBlock, atIdx int, phiSubst map[
 	for k, v := range f.lets {
 		e.vars[k] = v
 	}
-	e.locals = func(name string) (T, bool) {
-		return f.resolveLocal(name, at, atIdx, phiSubst, e)
+	e.locals = func(name string, env *SpecEnv) (T, bool) {
+		return f.resolveLocal(name, at, atIdx, phiSubst, env)
 	}
 	if li == nil {
 		// outside loop invariants (post-conditions): the function's only range-over-map loop
